@@ -390,6 +390,12 @@ func (s *configurationStore) Watch(ctx context.Context, ch chan<- configapi.Conf
 				delete(s.watchers, id)
 			}
 			s.mu.Unlock()
+			// The event dispatcher may already be sending to this watcher: keep draining its channel on every exit
+			// path, or the dispatcher - and with it every other watcher of the store - blocks for ever.
+			go func() {
+				for range eventCh {
+				}
+			}()
 		}()
 
 		if options.replay {
@@ -467,10 +473,6 @@ func (s *configurationStore) Watch(ctx context.Context, ch chan<- configapi.Conf
 				}
 			case <-ctx.Done():
 				close(ch)
-				go func() {
-					for range eventCh {
-					}
-				}()
 				return
 			}
 		}
